@@ -864,3 +864,21 @@ UNITS["v_control_types"] = dict(
              safety_id="C02.not_type_info.safety"),
     ],
 )
+
+# ------------------------------------------------------------------------------------------------
+UNITS["v_crud_get"] = dict(
+    prop=["C18"], tier="q", prelude=["crudpath.rs"], native_witness={"C18": ["crud_vec", "crud_paths"]},
+    fns=[dict(
+        id="crud_get", file="src/value/value/crud/get.rs", impl=None, name="get",
+        orig_sig="fn get<'a>( mut value: &Value, mut path_iter: impl Iterator<Item = BorrowedSegment<'a>>, ) -> Option<&Value>",
+        sig="#[verifier::loop_isolation(false)]\npub fn get<'a>(value0: &'a Value, path_iter0: PathIter) -> (r: Option<&'a Value>)",
+        requires=["path_iter0.pos <= path_iter0.segs@.len()"],
+        body_start="let mut value = value0; let mut path_iter = path_iter0;",
+        rewrites=[dict(**{"from": "BorrowedSegment::", "to": "Seg::", "why": "prelude name of BorrowedSegment"}),
+                  dict(**{"from": "array.get_value(&index)", "to": "vec_get_value(array, &index)", "count": 1, "why": "trait method ValueCollection::get_value on Vec<Value> = the function verified in v_crud_vec"})],
+        loops={"_count": 1, 0: dict(spec="invariant path_iter.pos <= path_iter.segs@.len(), spec_path_get(*value, path_iter.rest()) == spec_path_get(*value0, path_iter0.rest()),\n decreases path_iter.segs@.len() - path_iter.pos,")},
+        ensures=[("C18.get.path_semantics", "reading a path descends through objects by field and through arrays by (front/back) index, returns the value reached when the path is exhausted, and finds nothing as soon as it has to go through a non-container or a missing key/index",
+                  "opt_val(r) == spec_path_get(*value0, path_iter0.rest())")],
+        safety_id="C18.get.safety", safety_text="the path walk terminates (decreases the remaining path)",
+    )],
+)
